@@ -257,6 +257,23 @@ def check_set_backend():
         mido.open_input()
         if mido.backend is not b3 or mido.open_ioport.__self__ is not b3 or REC.calls[0][3].get('api') != 'KC':
             return 'set_backend(Backend object for the current module) did not rebind (%r)' % (REC.calls,)
+        # a Backend object is used as it was configured: use_environ=False stays False
+        saved_env = os.environ.get('MIDO_DEFAULT_INPUT')
+        os.environ['MIDO_DEFAULT_INPUT'] = 'from-the-environment'
+        try:
+            b4 = mido.Backend(MODNAMES['mod'], use_environ=False)
+            mido.set_backend(b4)
+            REC.calls = []
+            mido.open_input()
+            b4.open_input()
+            if b4.use_environ is not False or [c[2] for c in REC.calls] != [None, None]:
+                return ('set_backend(Backend(..., use_environ=False)): use_environ is now %r and open_input() opened %r' % (
+                    b4.use_environ, [c[2] for c in REC.calls]))
+        finally:
+            if saved_env is None:
+                os.environ.pop('MIDO_DEFAULT_INPUT', None)
+            else:
+                os.environ['MIDO_DEFAULT_INPUT'] = saved_env
         sys.modules.pop(MODNAMES['emod'], None)
         b2 = mido.Backend(MODNAMES['emod'])
         REC.imports = []
